@@ -44,7 +44,7 @@ def gen_base(rng):
         opts += ["-u", "2"]
     if rng.random() < 0.2:
         opts += ["--max-n", "1"]
-    recs1, recs2 = G.gen_reads(rng, rng.randint(20, 60), paired, ads1, ads2 or ads1, maxlen=40, nruns=True, qual_profile="decay", header="comment")
+    recs1, recs2 = G.gen_reads(rng, rng.randint(20, 60), paired, ads1, ads2 or ads1, maxlen=40, nruns=True, qual_profile="decay", header=rng.choice(["comment", "gtcomment"]))
     return dict(paired=paired, opts=opts, qual_opts=qual_opts, recs1=recs1, recs2=recs2 if paired else None)
 
 
@@ -272,6 +272,14 @@ def one_case(ctx, k):
                     f.write(fastx.format_fasta(b["recs2"]))
             argv = b["opts"] + ["-o", "fi1.fasta"] + (["-p", "fi2.fasta"] if paired else []) + ["in1.fasta"] + (["in2.fasta"] if paired else [])
             variant("input=fasta", argv, [("fi1.fasta", 1)] + ([("fi2.fasta", 2)] if paired else []), expect_fmt="fasta")
+            if paired:
+                # one interleaved FASTA file instead of two, one core and two
+                with open(os.path.join(d, "inter.fasta"), "w") as f:
+                    f.write(fastx.format_fasta([x for pair in zip(b["recs1"], b["recs2"]) for x in pair], width=rng.choice([None, 25])))
+                for cores in (1, 2):
+                    jj = ["-j", "2", "--buffer-size", str(rng.choice([1500, 3000, 4000000]))] if cores == 2 else []
+                    variant(f"input=fasta-interleaved cores={cores}", b["opts"] + jj + ["--interleaved", "-o", f"fx{cores}_1.fasta", "-p", f"fx{cores}_2.fasta", "inter.fasta"],
+                            [(f"fx{cores}_1.fasta", 1), (f"fx{cores}_2.fasta", 2)], expect_fmt="fasta")
             argv = b["opts"] + ["-o", "fu1.out"] + (["-p", "fu2.out"] if paired else []) + ["in1.fasta"] + (["in2.fasta"] if paired else [])
             variant("input=fasta name=.out", argv, [("fu1.out", 1)] + ([("fu2.out", 2)] if paired else []), expect_fmt="fasta")
         ctx.sample(dict(base=base, paired=paired, n_reads=len(b["recs1"])), limit=4)
